@@ -16,7 +16,7 @@ import time
 import traceback
 from collections import Counter, defaultdict
 from collections.abc import Iterable, Iterator
-from concurrent.futures import Future
+from concurrent.futures import CancelledError, Future
 from dataclasses import asdict, dataclass
 from datetime import timedelta
 from enum import Enum
@@ -814,6 +814,8 @@ def is_benign_solving_error(e: Exception) -> bool:
         case ShutdownError():
             return True
         case OSError(errno=9):  # BAD_FILE_DESCRIPTOR
+            return True
+        case CancelledError():  # the job was cancelled by a shutdown before its process started
             return True
         case _:
             return False
